@@ -373,6 +373,34 @@ func includedTerminatorRules() lexer.Rules {
 	}
 }
 
+// oddRules: rule maps the constructor accepts although they can never lex everything: a state
+// without rules, reachable by Push; a back-reference pattern that ends in a lone backslash (never
+// compiled at construction).
+func oddRules() lexer.Rules {
+	return lexer.Rules{
+		"Root": {
+			{Name: "Raw", Pattern: `r"`, Action: lexer.Push("Raw")},
+			{Name: "Tail", Pattern: `<(\w+)>`, Action: lexer.Push("Tail")},
+			{Name: "Word", Pattern: `\w+`},
+			{Name: "space", Pattern: `\s+`},
+		},
+		"Raw": {},
+		"Tail": {
+			{Name: "End", Pattern: `\1\`, Action: lexer.Pop()},
+			{Name: "Word", Pattern: `\w+`},
+			{Name: "space", Pattern: `\s+`},
+		},
+	}
+}
+
+// noRootRules: a rule map without a Root state.
+func noRootRules() lexer.Rules {
+	return lexer.Rules{"Main": {
+		{Name: "Word", Pattern: `\w+`},
+		{Name: "space", Pattern: `\s+`},
+	}}
+}
+
 // pointerActionRules: actions given as pointers (&lexer.ActionPush{...}), as rule maps assembled by
 // a program often carry them; *ActionPush and *ActionPop implement lexer.Action like the values
 // lexer.Push and lexer.Pop return.  The patterns of these rules can match the empty string.
@@ -458,6 +486,10 @@ var coreLexDefs = []*lexDef{
 		corpus: []string{"a <<DOC x DOC:sec y z sec w DOC b", "<<A A:b A:b", "<<A A:b b A:c c A d", "<<A A: x", "<<A A:b", "<<\xffT x \xffT y", "<<T T:\xc3 a \xc3 T", "<<\u00e9t\u00e9 \u00e9t\u00e9:\u00fc x \u00fc \u00e9t\u00e9", ""}},
 	{name: "included-terminator", rules: includedTerminatorRules, build: func() lexer.Definition { return mustRules(includedTerminatorRules()) },
 		corpus: []string{"a <<END x y END b", "<<A b !A! c <<B B", "<<A b", "<<A ?", ""}},
+	{name: "odd", rules: oddRules, build: func() lexer.Definition { return mustRules(oddRules()) },
+		corpus: []string{"a r\"raw text\" b", "a <t> b t c", "r\"", "<x>", "a b", ""}},
+	{name: "no-root", rules: noRootRules, build: func() lexer.Definition { return mustRules(noRootRules()) },
+		corpus: []string{"a b", " ", ""}},
 	{name: "pointer-actions", rules: pointerActionRules, build: func() lexer.Definition { return mustRules(pointerActionRules()) },
 		corpus: []string{"a (b c) d\n", "a ((b #todo: c)) d", "a ! b", "(a , b)", "(a #x: ! b)", "((a)", "foo\n) bar", ""}},
 	{name: "basic-runtime", build: basicRuntimeDef, genName: "",
